@@ -253,7 +253,24 @@ LibRoundTrip(l, how) ==
         /\ UNCHANGED <<sc, ct, msg, memo, cur, chain, hist>>
         /\ Emit("libroundtrip", SubSeq([i \in 1..Len(ovs) |-> st(i)], 1, Len(ovs)))
 
+(* lib -> lib on LONG messages, straight from a new scenario (nothing is encrypted by the specification): the DER length classes of   *)
+(* the ASN.1 layout - content lengths below 128, below 256, below 65536 and beyond (three length octets)                                   *)
+BigLens == {100, 200, 65300, 65428, 65536, 70000}
+BigRoundTrip(l, how, n) ==
+  /\ ph = "new" /\ how \in Hows(l) /\ sc.mlen = 1 /\ sc.mk = "rand" /\ sc.kid # "zt"       \* once per key (the scenarios with the shortest message)
+  /\ LET d == KeyD(sc.key)
+         ovs == NaturalOpts(l)
+         big == SubSeq(R!Bytes(Seed, 98000 + (n % 977), n), 1, n)
+         rnd == S!F32(KVal(sc)) \o SubSeq(R!Bytes(Seed, 99000 + (Label(sc) % 900), 64), 1, 64)
+         st(i) == [op |-> "roundtrip", curve |-> "sm2", d |-> HexD(d), msg |-> Hx!FromBytes(big), rnd |-> Hx!FromBytes(rnd),
+                   enc |-> l.enc, form |-> l.form, order |-> l.order, how |-> how, opt |-> ovs[i][1], via |-> ovs[i][2],
+                   err |-> FALSE, exp |-> Hx!FromBytes(big)]
+     IN /\ ph' = "bigend" /\ lay' = l /\ res' = "ok:libroundtrip" /\ tam' = [k |-> how, pos |-> n, mask |-> 0]
+        /\ UNCHANGED <<sc, ct, msg, memo, cur, chain, hist>>
+        /\ Emit("libroundtrip", SubSeq([i \in 1..Len(ovs) |-> st(i)], 1, Len(ovs)))
+
 Next == \/ Encrypt
+        \/ \E l \in StartLayouts, how \in {"nil", "opts", "asn1func"}, n \in BigLens : BigRoundTrip(l, how, n)
         \/ \E l \in StartLayouts : Layout(l)
         \/ Dec \/ WrongOrder \/ WrongKey
         \/ \E cv \in O!ConvsFrom(lay) : Convert(cv)
@@ -264,7 +281,7 @@ Next == \/ Encrypt
 Spec == Init /\ [][Next]_vars
 
 (* ---------------------------------------------------- C07 on the model *)
-Phases == {"new", "skip", "enc", "laid", "tam", "end"}
+Phases == {"new", "skip", "enc", "laid", "tam", "end", "bigend"}
 TypeOK == ph \in Phases /\ Len(chain) <= MaxChain
 (* the scenario is what it claims to be (cheap: no cryptography) *)
 ScenarioOK ==
